@@ -18,6 +18,7 @@ def run(prop, path):
     mod = importlib.import_module(f"gtv.props.{prop}")
     ob = [o for o in mod.REG.obs if o.id == rec["obligation"]][0]
     res = runner.run_numeric(ob, rec["sizes"], rec["num_seed"])
+    res["clauses"] = [c for c in res["clauses"] if ob.keeps(c["clause"])]
     bad = [c for c in res["clauses"] if not c["ok"]]
     if res["status"] != "ok":
         print("real code raised:\n" + res["error"])
